@@ -324,23 +324,42 @@ func (c16) hitReturns(c *an.Ctx, f *an.Fn, cacheCall *ast.CallExpr, loaderFns ma
 		c.Undecided("C16.probe", key, cacheCall.Pos(), "result of the cache probe is not bound to variables")
 		return
 	}
+	var unprobed token.Pos
 	hooks := an.Hooks{
 		Call: func(x *an.Explorer, call *ast.CallExpr, st *an.State) {
 			if call == cacheCall {
 				st.Set("probed", "1")
 				return
 			}
+			isLoad := false
 			if g := p.FnByObj[an.Callee(info, call)]; g != nil && loaderFns[g] {
-				st.Set("loaded", "1")
+				isLoad = true
 			}
 			if an.IsCallTo(info, call, ldExists, ldOpen) {
+				isLoad = true
+			}
+			if isLoad {
 				st.Set("loaded", "1")
+				// the loader is consulted without the cache having been asked: only development mode allows that
+				// (whoever asks — also a lookup that must not *store* its result, such as Set.Parse's)
+				dev := false
+				for k, v := range st.Facts {
+					pk := an.PlainKey(k)
+					if v && len(pk) > len(devMode) && pk[len(pk)-len(devMode)-1:] == "."+devMode {
+						dev = true
+					}
+				}
+				if st.Get("probed") == "" && !dev && !unprobed.IsValid() {
+					unprobed = call.Pos()
+				}
 			}
 		},
 	}
 	x := p.NewExplorer(f, hooks)
 	x.Run(nil)
 	c.States += x.Visited
+	c.Check(!unprobed.IsValid(), "C16.probe", f.Name+"/always-probed", cacheCall.Pos(), "outside development mode the cache is asked before the loader, whatever the caller's cache flag",
+		f.Name+" can consult the loader without having asked the cache on a path that is not known to be in development mode: a lookup that may not store its result (Set.Parse's extends/import) no longer gets the identical cached template")
 	hitExits, bad := 0, 0
 	for _, ex := range x.Exits {
 		if ex.Kind != an.ExitReturn || ex.State.Get("probed") == "" {
